@@ -656,7 +656,14 @@ pub fn generate_poisson_points<T: CoordinateScalar + SampleUniform, const D: usi
         5..=6 => 4,
         _ => 8, // Very high dimensions need much more attempts
     };
-    let max_attempts = (n_points * 30).saturating_mul(dimension_scaling);
+    let max_attempts = n_points
+        .checked_mul(30)
+        .ok_or_else(|| RandomPointGenerationError::RandomGenerationFailed {
+            min: format!("{:?}", bounds.0),
+            max: format!("{:?}", bounds.1),
+            details: format!("requested point count {n_points} is too large for the attempt budget"),
+        })?
+        .saturating_mul(dimension_scaling);
     let mut attempts = 0;
 
     while points.len() < n_points && attempts < max_attempts {
